@@ -166,6 +166,15 @@ def rand_program(rng, meta, *, nops=None):
     nconsts = rng.choice([1, 2, 3])
     n = rng.randrange(0, 9) if nops is None else nops
     prog = [rand_op(rng, meta, nworlds, nconsts) for _ in range(n)]
+    if meta['modal'] and rng.random() < 0.3:
+        # sparse world labels, some >= 8: world sets whose iteration order is not ascending (CPython iterates a small set of
+        # ints by hash slot), several successors per world — whatever is exported must not depend on that order
+        labels = [0] + sorted(rng.sample([1, 2, 3, 5, 7, 8, 9, 11, 16, 17, 24], nworlds - 1)) if rng.random() < 0.7 else \
+                 sorted(rng.sample([0, 1, 3, 8, 9, 16, 24], nworlds))
+        rl = lambda w: labels[w] if w < len(labels) else w
+        prog = [(op[0], rl(op[1]), rl(op[2])) if op[0] == 'ra' else (*op[:-1], rl(op[-1])) for op in prog]
+        for _ in range(rng.randrange(0, 4)):       # extra arrows out of one world
+            prog.insert(rng.randrange(len(prog) + 1), ('ra', labels[0], rng.choice(labels)))
     r = rng.random()
     if r < 0.12:
         # something after finish: illegal set, a second finish, an access pair
